@@ -593,6 +593,95 @@ def extract_file(repo_src, file, log):
     return finish_linemap(s)
 
 
+# ---------------------------------------------------------------------------------------------------------------
+# src/curve/zorro/*: constants and mul_by_a (C14).  The arkworks macros (MontConfig derive, MontFp!) are outside Verus'
+# reach; what the repo itself declares are decimal constants and one routine.  Rule R15 turns each declared constant into a
+# spec constant (`pub open spec fn zorro_<name>() -> nat { l4(limbs) }`, value copied digit by digit) and keeps the body of
+# `mul_by_a` verbatim, retyped over the stand-in field trait.  Everything else in those files (use lines, type aliases, the
+# impl headers, COFACTOR_INV, `#[generator]`) is dropped.  Line structure of each file is preserved.
+# ---------------------------------------------------------------------------------------------------------------
+ZFILES = ['curve/zorro/fq.rs', 'curve/zorro/fr.rs', 'curve/zorro/g1.rs']
+ZORRO_CONSTS = {}
+ED25519_FQ_MODULUS = 2 ** 255 - 19   # A15: modulus of ark_ed25519::Fq (a dependency, not repo code)
+
+
+def _l4(n):
+    if n < 0 or n >= 2 ** 256:
+        raise Undecided('zorro constant out of the 256-bit range')
+    if n < 2 ** 64:
+        return '0x%xnat' % n
+    return 'l4(%s)' % ', '.join('0x%xnat' % ((n >> (64 * i)) & (2 ** 64 - 1)) for i in range(4))
+
+
+def _keep_lines(s, pieces):
+    """blank everything except the given (start, end, replacement) pieces; replacement keeps the newline count"""
+    out = []
+    pos = 0
+    for a, b, rep in sorted(pieces):
+        out.append(re.sub(r'[^\n]', '', s[pos:a]))
+        old = s[a:b]
+        d = old.count('\n') - rep.count('\n')
+        if d < 0:
+            raise Undecided('zorro rewrite would add lines')
+        out.append(rep + '\n' * d)
+        pos = b
+    out.append(re.sub(r'[^\n]', '', s[pos:]))
+    return ''.join(out)
+
+
+def extract_zorro(repo_src, file, log):
+    s = open(repo_src + '/' + file).read()
+    s = strip_tests(s, file, log)
+    pieces = []
+    if file.endswith('fq.rs'):
+        mm = re.search(r'#\[modulus\s*=\s*"(\d+)"\]', s)
+        if not mm:
+            raise Undecided('curve/zorro/fq.rs: no #[modulus = ".."] attribute found')
+        n = int(mm.group(1))
+        ZORRO_CONSTS['fq_modulus'] = n
+        pieces.append((mm.start(), mm.end(), 'pub open spec fn zorro_fq_modulus() -> nat { %s }' % _l4(n)))
+        log.add('R15:zorro-const', file, rp.line_of(s, mm.start()), 'modulus')
+    elif file.endswith('fr.rs'):
+        mm = re.search(r'pub use ark_ed25519::Fq as Fr;', s)
+        if not mm:
+            raise Undecided('curve/zorro/fr.rs: the scalar field is no longer the re-export `ark_ed25519::Fq`; its modulus is declared outside the repository')
+        ZORRO_CONSTS['fr_modulus'] = ED25519_FQ_MODULUS
+        pieces.append((mm.start(), mm.end(), 'pub open spec fn zorro_fr_modulus() -> nat { %s }' % _l4(ED25519_FQ_MODULUS)))
+        log.add('R15:zorro-const', file, rp.line_of(s, mm.start()), 'Fr = ark_ed25519::Fq (A15)')
+    else:
+        for mm in re.finditer(r'(?:pub\s+)?const\s+(\w+)\s*:\s*Fq\s*=\s*MontFp!\(\s*"(\d+)"\s*\)\s*;', s):
+            name, n = mm.group(1), int(mm.group(2))
+            ZORRO_CONSTS[name.lower()] = n
+            pieces.append((mm.start(), mm.end(), 'pub open spec fn zorro_%s() -> nat { %s }' % (name.lower(), _l4(n))))
+            log.add('R15:zorro-const', file, rp.line_of(s, mm.start()), name)
+        mm = re.search(r"const\s+COFACTOR\s*:\s*&'static\s*\[u64\]\s*=\s*&\[([^\]]*)\]\s*;", s)
+        if not mm:
+            raise Undecided('curve/zorro/g1.rs: COFACTOR not found')
+        elems = [e.strip() for e in mm.group(1).split(',') if e.strip()]
+        ZORRO_CONSTS['cofactor'] = [int(e, 0) for e in elems]
+        pieces.append((mm.start(), mm.end(), 'pub open spec fn zorro_cofactor() -> Seq<u64> { seq![%s] }' % ', '.join(e + 'u64' for e in elems)))
+        log.add('R15:zorro-const', file, rp.line_of(s, mm.start()), 'COFACTOR')
+        mm = re.search(r'const\s+GENERATOR\s*:\s*Affine<Self>\s*=\s*Affine::new_unchecked\(\s*(\w+)\s*,\s*(\w+)\s*\)\s*;', s)
+        if not mm:
+            raise Undecided('curve/zorro/g1.rs: GENERATOR is not Affine::new_unchecked(X, Y) of two named constants')
+        pieces.append((mm.start(), mm.end(), 'pub open spec fn zorro_generator() -> (nat, nat) { (zorro_%s(), zorro_%s()) }' % (mm.group(1).lower(), mm.group(2).lower())))
+        log.add('R15:zorro-const', file, rp.line_of(s, mm.start()), 'GENERATOR')
+        m = rp.mask(s)
+        mm = re.search(r'fn\s+mul_by_a\s*\(\s*(\w+)\s*:\s*Self::BaseField\s*\)\s*->\s*Self::BaseField\s*\{', m)
+        if not mm:
+            raise Undecided('curve/zorro/g1.rs: fn mul_by_a(x: Self::BaseField) -> Self::BaseField not found')
+        o = mm.end() - 1
+        c = rp.match_close(m, o)
+        head = "pub fn zorro_mul_by_a<ZF: ZField + 'static>(%s: ZF) -> ZF where for<'zz> &'zz ZF: Add<&'zz ZF, Output = ZF> + Add<ZF, Output = ZF> {" % mm.group(1)
+        pieces.append((mm.start(), c + 1, head + s[o + 1:c + 1]))
+        log.add('R15:zorro-fn', file, rp.line_of(s, mm.start()), 'mul_by_a retyped over the stand-in field')
+        for need in ('coeff_a', 'coeff_b'):
+            if need not in ZORRO_CONSTS:
+                raise Undecided('curve/zorro/g1.rs: %s is not a MontFp! decimal constant' % need.upper())
+    text = _keep_lines(s, pieces)
+    return text, list(range(1, text.count('\n') + 2))
+
+
 LINEMAPS = {}
 
 
@@ -603,4 +692,7 @@ def extract_all(repo_src):
     LINEMAPS.clear()
     for f in FILES:
         out[f], LINEMAPS[f] = extract_file(repo_src, f, log)
+    ZORRO_CONSTS.clear()
+    for f in ZFILES:
+        out[f], LINEMAPS[f] = extract_zorro(repo_src, f, log)
     return out, log
